@@ -14,6 +14,7 @@ import (
 	"os"
 	"sort"
 	"sync"
+	"time"
 
 	"go4.org/jsonconfig"
 	"perkeep.org/pkg/blob"
@@ -107,19 +108,21 @@ type Env struct {
 	keep   bool
 
 	// fault plan
-	ErrKind       int               // shape of the injected error (ErrPlain, ErrDeadline, ...)
-	WrongSizeZero bool              // WrongSize faults report 0 for a non-empty blob instead of size+1
-	FailSeq       map[int]Behaviour // by global call sequence number (1-based)
-	Match         func(e *Event) Behaviour
-	freezeMut     int // freeze when the mutating call with this number is ABOUT to run (0 = never)
-	frozen        bool
-	frozenAt      int
-	faultsHit     int
-	Stores        map[string]*Store
-	KVs           map[string]*KV
-	YieldHook     func(e *Event) // called outside the lock before each call (C14 schedule perturbation)
-	AfterHook     func(e *Event) // called after each call completed
-	BeforeMut     func(e *Event) // called (outside lock) right before a mutating call takes effect
+	ErrKind int // shape of the injected error (ErrPlain, ErrDeadline, ...)
+	// SlowErrorReturn: a failing EnumerateBlobs closes its channel this long before it returns its error.
+	SlowErrorReturn time.Duration
+	WrongSizeZero   bool              // WrongSize faults report 0 for a non-empty blob instead of size+1
+	FailSeq         map[int]Behaviour // by global call sequence number (1-based)
+	Match           func(e *Event) Behaviour
+	freezeMut       int // freeze when the mutating call with this number is ABOUT to run (0 = never)
+	frozen          bool
+	frozenAt        int
+	faultsHit       int
+	Stores          map[string]*Store
+	KVs             map[string]*KV
+	YieldHook       func(e *Event) // called outside the lock before each call (C14 schedule perturbation)
+	AfterHook       func(e *Event) // called after each call completed
+	BeforeMut       func(e *Event) // called (outside lock) right before a mutating call takes effect
 }
 
 func NewEnv() *Env {
@@ -520,13 +523,26 @@ func firstKey(blobs []blob.Ref) string {
 }
 
 func (s *Store) EnumerateBlobs(ctx context.Context, dest chan<- blob.SizedRef, after string, limit int) error {
-	defer close(dest)
+	closed := false
+	defer func() {
+		if !closed {
+			close(dest)
+		}
+	}()
 	ev, b, err := s.env.begin(s.layer(), "enumerate", after, limit, false)
 	if err != nil {
 		return err
 	}
 	if b == Fail || b == FailAfter {
 		s.env.end(ev, "injected")
+		if d := s.env.SlowErrorReturn; d > 0 {
+			// the channel is closed (as every store's deferred close does) a moment before the caller of
+			// EnumerateBlobs gets to see the error: whoever watches the channel must not take the close for
+			// the end of a successful enumeration
+			closed = true
+			close(dest)
+			time.Sleep(d)
+		}
 		return s.env.injected()
 	}
 	s.mu.RLock()
